@@ -73,7 +73,16 @@ def generate(tier, rng):
     return cases
 
 
+def project(c, x):
+    """for the function-body stream only the executed trace matters here (what text the substitution yields is C11's matter)"""
+    if c.stream == "fcap" and "#" in x:
+        return x.split("#")[0]
+    return x
+
+
 def nontrivial(c, M, S, g, cls):
+    if c.stream == "fcap":
+        return ("fcap", c.meta.get("k"))
     if c.stream != "list" or "ops" not in c.meta:
         return None
     ran = M.split("|")[0]
@@ -179,4 +188,9 @@ def process(tier, rng, cicada):
     for i, c in enumerate(sc):
         c.id = "s%d" % i
     out.append(("script", sc, run_process(cicada, sc, "script")))
+    # lists as lines of a function body that is called inside a command substitution (C11's `fcap` stream: `cond 7 L && stage 3 0 p`):
+    # the operators must decide on the status of the pipeline just run there too
+    from . import c11
+    fc, fi = c11.funcap(tier, rng.fork("c03-fcap"), cicada)
+    out.append(("fcap", fc, fi))
     return out
